@@ -4,9 +4,35 @@ from concurrent.futures import ThreadPoolExecutor
 
 VERIF = os.path.dirname(os.path.dirname(os.path.abspath(__file__)))
 LEAN = os.path.join(VERIF, "lean")
-HARNESS = os.path.join(VERIF, "harness")
-REPO = "/repo"
+HARNESS_SRC = os.path.join(VERIF, "harness")
+# The registered commands always check /repo.  VERIF_REPO points the same machinery at another
+# checkout (a scratch worktree holding a seeded change) without touching /repo; the harness crate is
+# then built from a scratch copy whose path dependency names that checkout.
+REPO = os.environ.get("VERIF_REPO", "/repo")
 TMP = os.path.join(VERIF, "tmp")
+
+
+def _harness_dir():
+    if REPO == "/repo":
+        return HARNESS_SRC
+    d = os.path.join(TMP, "harness-" + hashlib.sha1(REPO.encode()).hexdigest()[:10])
+    os.makedirs(d, exist_ok=True)
+    for f in ("Cargo.lock", ".cargo", "src"):
+        src, dst = os.path.join(HARNESS_SRC, f), os.path.join(d, f)
+        if os.path.isdir(src):
+            shutil.copytree(src, dst, dirs_exist_ok=True)
+        else:
+            shutil.copy(src, dst)
+    toml = open(os.path.join(HARNESS_SRC, "Cargo.toml")).read().replace('path = "/repo"', 'path = "%s"' % REPO)
+    with open(os.path.join(d, "Cargo.toml"), "w") as f:
+        f.write(toml)
+    return d
+
+
+HARNESS = _harness_dir()
+# evidence and replay files of the registered runs live in /verif; runs against another checkout keep theirs
+# apart (they describe that checkout, not /repo)
+OUTROOT = VERIF if REPO == "/repo" else os.path.join(TMP, "alt-" + hashlib.sha1(REPO.encode()).hexdigest()[:10])
 JUDGE = os.path.join(LEAN, ".lake", "build", "bin", "hecs_judge")
 ALLOWED_AXIOMS = {"propext", "Classical.choice", "Quot.sound"}
 MIRI_ENV = {"RUSTFLAGS": "--cfg hecs_verif", "CARGO_NET_OFFLINE": "true",
@@ -411,8 +437,8 @@ def match_known(pid, text):
 # evidence
 
 def write_evidence(pid, ev):
-    os.makedirs(os.path.join(VERIF, "evidence"), exist_ok=True)
-    path = os.path.join(VERIF, "evidence", pid + ".json")
+    os.makedirs(os.path.join(OUTROOT, "evidence"), exist_ok=True)
+    path = os.path.join(OUTROOT, "evidence", pid + ".json")
     with open(path, "w") as f:
         json.dump(ev, f, indent=1, sort_keys=True)
     return path
@@ -444,9 +470,9 @@ def check(pid, tier, seed, replay_file=None):
     work = os.path.join(TMP, pid)
     shutil.rmtree(work, ignore_errors=True)
     os.makedirs(work, exist_ok=True)
-    os.makedirs(os.path.join(VERIF, "replays"), exist_ok=True)
+    os.makedirs(os.path.join(OUTROOT, "replays"), exist_ok=True)
     if not replay_file:
-        for old in glob.glob(os.path.join(VERIF, "replays", pid + "-*")):
+        for old in glob.glob(os.path.join(OUTROOT, "replays", pid + "-*")):
             os.remove(old)
     violations = []   # (replay path, suffix, description)
     known_hits = []
@@ -464,7 +490,7 @@ def check(pid, tier, seed, replay_file=None):
     exe_rel = None
     if rc != 0:
         if repo_broken:
-            rp = os.path.join(VERIF, "replays", f"{pid}-build.txt")
+            rp = os.path.join(OUTROOT, "replays", f"{pid}-build.txt")
             with open(rp, "w") as f:
                 f.write("hecs does not build with --cfg hecs_verif; nothing can be shown about it.\n"
                         f"correspondence: engine(s) {[j['engine'] for j in plan['jobs']]}\n\n" + out[-6000:])
@@ -556,7 +582,7 @@ def check(pid, tier, seed, replay_file=None):
         if r.get("miri") == "ub":
             opsf = os.path.join(r["workdir"], "ops.txt")
             hdrs = [l for l in open(opsf).read().splitlines() if l.startswith("history ")] if os.path.exists(opsf) else []
-            rp = os.path.join(VERIF, "replays", f"{pid}-{eng}-miri-{hdrs[-1].split()[-1] if hdrs else 'none'}.ops")
+            rp = os.path.join(OUTROOT, "replays", f"{pid}-{eng}-miri-{hdrs[-1].split()[-1] if hdrs else 'none'}.ops")
             with open(rp, "w") as f:
                 f.write(f"# property {pid}; Miri reported undefined behaviour while executing this history\n")
                 f.write(f"# {r['miri_message'][:600]}\n")
@@ -601,7 +627,7 @@ def check(pid, tier, seed, replay_file=None):
                 small = ops
                 st, d = replay(exe_j, eng, h["header"], small, os.path.join(work, "shrink"), "final")
             hid = h["header"].split()[-1]
-            rp = os.path.join(VERIF, "replays", f"{pid}-{eng}-{hid}.ops")
+            rp = os.path.join(OUTROOT, "replays", f"{pid}-{eng}-{hid}.ops")
             with open(rp, "w") as f:
                 f.write(f"# property {pid}; engine {eng}; job {job['name']}; status {st}\n")
                 f.write(f"# first offending line: {str(d.get('line'))[:500]}\n")
@@ -630,7 +656,7 @@ def check(pid, tier, seed, replay_file=None):
                 st, d = replay(exe_j, eng, hdrs[-1], ops, os.path.join(work, "crash"), "crash")
                 if st == "CRASH":
                     small = shrink(exe_j, eng, hdrs[-1], ops, "CRASH", os.path.join(work, "crash"))
-                    rp = os.path.join(VERIF, "replays", f"{pid}-{eng}-crash-{hdrs[-1].split()[-1]}.ops")
+                    rp = os.path.join(OUTROOT, "replays", f"{pid}-{eng}-crash-{hdrs[-1].split()[-1]}.ops")
                     with open(rp, "w") as f:
                         f.write(f"# property {pid}; process aborted (signal/alloc failure) while executing this history\n")
                         f.write(hdrs[-1] + "\n" + "\n".join(small) + "\n")
@@ -647,7 +673,7 @@ def check(pid, tier, seed, replay_file=None):
 
     # ---- (P) failure without any concrete failing input
     if not P["ok"] and not [v for v in violations if v[1] == ""]:
-        rp = os.path.join(VERIF, "replays", f"{pid}-proof.txt")
+        rp = os.path.join(OUTROOT, "replays", f"{pid}-proof.txt")
         with open(rp, "w") as f:
             f.write(f"property {pid}: proof obligations no longer check ({P['discharged']}/{P['obligations']}).\n")
             for fl in P["failures"]:
